@@ -45,6 +45,21 @@ var coSyscalls = map[string]int{"open": 2, "execve": 59, "connect": 42, "accept"
 	"chmod": 90, "mount": 165, "recvfrom": 45, "sendto": 44, "openat": 257, "kill": 62, "setuid": 105, "ptrace": 101, "nosuch": 999,
 	"mkdir": 83, "mkdirat": 258, "renameat": 264, "renameat2": 316, "symlink": 88, "link": 86, "rmdir": 84, "creat": 85, "chown": 92, "truncate": 76}
 
+// coAcct: an account name, often one the (injected) user database knows, aliases included
+func coAcct(r *rand.Rand) string {
+	if r.Intn(3) != 0 {
+		return []string{"root", "toor", "alice", "al", "bob"}[r.Intn(5)]
+	}
+	return coWord(r)
+}
+
+func coID(r *rand.Rand) int {
+	if r.Intn(2) == 0 {
+		return []int{0, 1000, 1001}[r.Intn(3)]
+	}
+	return r.Intn(2000)
+}
+
 func coWord(r *rand.Rand) string {
 	const cs = "abcdefghijklmnopqrstuvwxyz0123456789_./-"
 	n := 1 + r.Intn(10)
@@ -78,7 +93,7 @@ func syscallBody(r *rand.Rand, name string, items int) string {
 	}
 	return fmt.Sprintf(`arch=c000003e syscall=%d success=%s exit=%s a0=%x a1=%x a2=%x a3=%x items=%d ppid=%d pid=%d auid=%d uid=%d gid=%d euid=%d suid=%d fsuid=%d egid=%d sgid=%d fsgid=%d tty=pts0 ses=%d comm="%s" exe="/usr/bin/%s" subj=u_%s:r_%s:t_%s:s0 key="k%s"`,
 		coSyscalls[name], succ, exit, r.Intn(1<<20), r.Intn(1<<20), r.Intn(1<<20), r.Intn(1<<20), items, 1+r.Intn(30000), 1+r.Intn(30000),
-		[]int{0, 1000, 4294967295}[r.Intn(3)], r.Intn(2000), r.Intn(2000), r.Intn(2000), r.Intn(2000), r.Intn(2000), r.Intn(2000), r.Intn(2000), r.Intn(2000),
+		[]int{0, 1000, 4294967295}[r.Intn(3)], coID(r), coID(r), coID(r), r.Intn(2000), r.Intn(2000), coID(r), r.Intn(2000), r.Intn(2000),
 		1+r.Intn(500), coWord(r), coWord(r), coWord(r), coWord(r), coWord(r), coWord(r))
 }
 
@@ -97,7 +112,7 @@ func randomGroup(r *rand.Rand) ([]recSpec, string) {
 			1700, 1701, 1702, 2100, 2111, 2200, 2300, 2400, 2500, 1800, 1200, 1300, 1309, 1302, 1307, 1319, 1124, 1334, 2000, 65000, 1403}
 		t := types[r.Intn(len(types))]
 		body := fmt.Sprintf(`pid=%d uid=%d auid=%d ses=%d subj=u_%s:r_%s:t_%s:s0-s0:c0.c1023 msg='op=%s acct="%s" exe="/usr/sbin/%s" hostname=%s addr=%d.%d.%d.%d terminal=%s res=%s'%s`,
-			1+r.Intn(30000), r.Intn(2000), []int{0, 1000, 4294967295}[r.Intn(3)], 1+r.Intn(500), coWord(r), coWord(r), coWord(r), coWord(r), coWord(r),
+			1+r.Intn(30000), coID(r), []int{0, 1000, 4294967295}[r.Intn(3)], 1+r.Intn(500), coWord(r), coWord(r), coWord(r), coWord(r), coAcct(r),
 			coWord(r), coWord(r), r.Intn(256), r.Intn(256), r.Intn(256), r.Intn(256), coWord(r), []string{"success", "failed"}[r.Intn(2)], extras(r, r.Intn(3)))
 		switch t {
 		case 1300:
@@ -483,7 +498,14 @@ func coalesceIsoCmd(args []string) int {
 	w := newNDWriter(*out)
 	w.write(map[string]interface{}{"k": "meta", "family": "coalesce"})
 	stats := map[string]int{"golden_groups": len(golden)}
-	users, groups := aucoalesce.NewUserCache(time.Hour), aucoalesce.NewGroupCache(time.Hour)
+	// a user database with alias names (two names, one uid), behind the caches' injectable lookups: the
+	// name -> id path is taken for events that name an account, and what it learns must not leak into others
+	uByID := map[string]string{"0": "root", "1000": "alice", "1001": "bob"}
+	uByName := map[string]string{"root": "0", "toor": "0", "alice": "1000", "al": "1000", "bob": "1001"}
+	gByID := map[string]string{"0": "root", "1000": "staff", "1001": "bob"}
+	gByName := map[string]string{"root": "0", "wheel": "0", "staff": "1000", "users": "1000", "bob": "1001"}
+	users := aucoalesce.VerifNewEntityCache(time.Hour, func(k string) string { return uByID[k] }, func(k string) string { return uByName[k] })
+	groups := aucoalesce.VerifNewEntityCache(time.Hour, func(k string) string { return gByID[k] }, func(k string) string { return gByName[k] })
 	trace := 0
 
 	pickGroup := func() []recSpec {
